@@ -100,7 +100,7 @@ def tasks_for(tier):
             (dict(levy='foster', size=(1, 2), tol=0.1, halfway=True, t1=Fraction(1, 2)), 'dyadic', 2, mp, to),
             (dict(levy='space-time', size=(1,), tol=0.1, halfway=True, cache_size=0, t1=Fraction(1, 2)), 'dyadic', 2, mp, to),
             (dict(levy='foster', size=(2, 2), cache_size=2, entropy=9), 'twin-objects', 2, mp, to),
-            (dict(levy='none', size=(1,), tol=0.01, halfway=True, t1=Fraction(1, 4)), 'dyadic', 1, mp, to),
+            (dict(levy='none', size=(1,), tol=0.01, halfway=True, t1=Fraction(3, 25)), 'dyadic', 1, mp, to),
             (dict(wrapper='tree', levy='none', size=(2,), tol=0.1, t1=Fraction(1, 2), w0=-0.75), 'dyadic-point', 2, mp, to),
         ]
     return T
